@@ -1,11 +1,28 @@
 package rules
 
 import (
+	"strings"
+
+	"golang.org/x/tools/go/ssa"
+
 	"lalverif/internal/model"
 	"lalverif/internal/report"
 )
 
-// c18r1 is replaced by the engine-B instance once the prover is built.
+// c18r1: every index/slice/make/division in the AMF0 readers and metadata helpers is in
+// bounds for every input byte string.
 func c18r1(p *model.Prog, r *report.Result) {
-	r.NotDecided = append(r.NotDecided, "in-bounds proof of every index/slice in the AMF0 readers (R1, engine B not built yet)")
+	r.Rule("C18.R1", "engine B: every index, slice, make and division in pkg/rtmp amf0.go / metadata.go reachable from the AMF0 entry points is proved in bounds from dominating length guards, earlier successful operations and inferred preconditions discharged at every caller; the entry points take an arbitrary byte slice")
+	var roots []*ssa.Function
+	for _, n := range []string{"ReadObject", "ReadArray", "ReadStrictArray", "ReadObjectOrArray", "ReadString", "ReadStringWithoutType", "ReadLongStringWithoutType", "ReadNumber", "ReadBoolean", "ReadNull", "ReadUndefinedOrUnsupported"} {
+		roots = append(roots, p.Method("pkg/rtmp", "amf0", n))
+	}
+	roots = append(roots, p.Func("pkg/rtmp", "ParseMetadata"), p.Func("pkg/rtmp", "MetadataEnsureWithSdf"), p.Func("pkg/rtmp", "MetadataEnsureWithoutSdf"))
+	_, n := runPO(p, r, poConfig{rule: "C18.R1", roots: roots, filter: func(fn *ssa.Function) bool {
+		pos := p.Pos(fn.Pos())
+		return strings.Contains(pos, "pkg/rtmp/amf0.go") || strings.Contains(pos, "pkg/rtmp/metadata.go") || model.IsNaza(fn)
+	}, kinds: map[string]bool{"index": true, "slice": true, "make": true, "div": true, "libcall": true}})
+	if n < 30 {
+		r.Bad("C18.R1", "floor", "", "fewer than 30 obligations enumerated in the AMF0 readers")
+	}
 }
